@@ -13,6 +13,11 @@ trap cleanup EXIT
 mkdir -p $VC && ( cd /verif && git ls-files -z --cached --others --exclude-standard | grep -zv '^seeded/' | xargs -0 cp --parents -t $VC ) || exit 2
 sed -i "s#=> /repo#=> $WT#" $VC/harness/go.mod
 cd $VC
+if [ -n "$ISO_CMD" ]; then
+  # run an arbitrary command in the scratch copy instead of checks (debugging a seeded change)
+  VERIF_REPO=$WT sh -c "$ISO_CMD"
+  exit $?
+fi
 for id in "$@"; do
   echo "=== $id ($TIER) on $(basename $(dirname $P)) [isolated]"
   VERIF_REPO=$WT ./check "$id" "$TIER" 2>&1 | grep -E "^(VIOLATION|OK|INCONCLUSIVE|KNOWN|  what)" | cut -c1-420 | head -8
